@@ -276,7 +276,8 @@ def _apply(gate: str, value, control: bool, ctx, rng):
             if what == "unknown-required-region":
                 kw = {"extra_regions": [(g, 0 if control else 1)] + [(bytes(rng.randrange(256) for _ in range(16)), 0) for _ in range(0 if control else value)]}
             else:
-                kw = {"extra_items": [(g, b"opaque payload", 3 if control else value)]}
+                # the item's data may be of any length, also empty (offset and length zero are a valid "present but empty" item)
+                kw = {"extra_items": [(g, rng.choice([b"opaque payload", b"", b"", b"x"]), 3 if control else value)]}
             sf, _, _ = wvhdx.build(rng, block_size=MBb, sector_size=512, nblocks=2, states=[6, 0], tag=1, checksums=False, **kw)
             fh = as_handle(sf)
             return call(lambda: VHDX(fh).read(512))
@@ -395,6 +396,12 @@ def _apply(gate: str, value, control: bool, ctx, rng):
         elif what == "missing-attr" and not control:
             roff, rlen, _, _ = meta["attr_index"][value]
             raw[roff + 4] ^= 0x20  # rename the attribute (first character changes case): the required name is now absent
+        # every way of constructing the object is an "open": also with the optional verification argument switched off
+        vmode = rng.choice(["default", "default", "kw-false", "pos-false"]) if what in ("aead-version", "version", "magic", "cipher", "missing-attr") else "default"
+        if vmode == "kw-false":
+            return call(lambda: Envelope(io.BytesIO(bytes(raw)), verify=False).decrypt(key))
+        if vmode == "pos-false":
+            return call(lambda: Envelope(io.BytesIO(bytes(raw)), False).decrypt(key))
         return call(lambda: Envelope(io.BytesIO(bytes(raw))).decrypt(key))
     if fam == "keystore":
         from dissect.hypervisor.util.envelope import KeyStore
